@@ -273,6 +273,14 @@ func (s *State) enabled(th *Thread) bool {
 	if th.done || len(th.frames) == 0 {
 		return false
 	}
+	if th.yield {
+		for _, o := range s.threads {
+			if o != th && !o.done && !o.yield && s.enabled(o) {
+				return false
+			}
+		}
+		return true
+	}
 	fr := th.frames[len(th.frames)-1]
 	if fr.fn == nil || fr.barrier || fr.pc >= len(fr.block.Instrs) {
 		return true
@@ -621,7 +629,8 @@ func (s *State) runAll(resume bool) {
 		}
 		if t.parked {
 			t.parked = false
-			t.resumed = true
+			t.resumed = !t.yield
+			t.yield = false
 		}
 		s.runThread(0)
 	}
